@@ -15,6 +15,7 @@ def obligations(tier):
     big = [s for s in fam if len(s["outcome"].nodes) >= 3][: (14 if tier == "quick" else 80)]
     o += tc.tree_obligations("copy_ptrcheck", big, {"P_COPY": 1, "P_COPY_RELEASE_SRC": 1}, funcs=F, weight_cap=30, max_cases=2, ptrcheck=True, timeout=900,
                              desc="twin run with CBMC use-after-free / double-free checks: any sharing between the trees is a dereference of a deallocated object")
+    o += tc.large_obligations("copy_equal_independent_large", {"P_COPY": 1}, "tree", funcs=F, select=lambda s: len(s["outcome"].nodes) <= 60,  desc="large shapes: copy equal, independent (address census), refcount 1, source intact")
     return o
 
 
